@@ -44,10 +44,13 @@ type factState struct {
 	facts map[fact]bool
 	mem   map[*ssa.Alloc]ssa.Value // last value stored, when known on every path
 	alias map[ssa.Value]ssa.Value  // load -> value it loaded
+	// pending: merged values that were tested with more than one incoming edge still
+	// possible; a later test may rule edges out and complete the implication
+	pending map[*ssa.Phi]factKind
 }
 
 func newFactState() *factState {
-	return &factState{map[fact]bool{}, map[*ssa.Alloc]ssa.Value{}, map[ssa.Value]ssa.Value{}}
+	return &factState{map[fact]bool{}, map[*ssa.Alloc]ssa.Value{}, map[ssa.Value]ssa.Value{}, map[*ssa.Phi]factKind{}}
 }
 
 func (s *factState) clone() *factState {
@@ -60,6 +63,9 @@ func (s *factState) clone() *factState {
 	}
 	for k, v := range s.alias {
 		n.alias[k] = v
+	}
+	for k, v := range s.pending {
+		n.pending[k] = v
 	}
 	return n
 }
@@ -81,12 +87,22 @@ func meetFacts(a, b *factState) *factState {
 			n.alias[k] = v
 		}
 	}
+	for k, v := range a.pending {
+		if w, ok := b.pending[k]; ok && w == v {
+			n.pending[k] = v
+		}
+	}
 	return n
 }
 
 func (s *factState) equal(o *factState) bool {
-	if len(s.facts) != len(o.facts) || len(s.mem) != len(o.mem) || len(s.alias) != len(o.alias) {
+	if len(s.facts) != len(o.facts) || len(s.mem) != len(o.mem) || len(s.alias) != len(o.alias) || len(s.pending) != len(o.pending) {
 		return false
+	}
+	for k, v := range s.pending {
+		if w, ok := o.pending[k]; !ok || w != v {
+			return false
+		}
 	}
 	for k := range s.facts {
 		if !o.facts[k] {
@@ -117,6 +133,8 @@ type FuncFacts struct {
 	mutated map[string]bool                  // canonical receivers on which the function calls a mutator
 	ids     map[ssa.Value]int
 	doneIDs map[ssa.Instruction]int // "this call has been executed" facts (path-sensitive ordering)
+	inRetry bool
+	implDepth int
 	escaped map[*ssa.Alloc]bool
 	pure    func(*ssa.Function) bool
 	// storedFields: fields (by struct type + index) stored to anywhere in the function
@@ -291,9 +309,7 @@ func (ff *FuncFacts) assume(s *factState, cond ssa.Value, b bool) {
 			if b {
 				want = fTRUE
 			}
-			for f := range ff.phiImplies(x, want, map[*ssa.Phi]bool{}) {
-				s.facts[f] = true
-			}
+			ff.importPhi(s, x, want)
 		}
 	case *ssa.UnOp:
 		if x.Op == token.NOT {
@@ -324,9 +340,7 @@ func (ff *FuncFacts) assume(s *factState, cond ssa.Value, b bool) {
 						if eq {
 							want = fNIL
 						}
-						for f := range ff.phiImplies(phi, want, map[*ssa.Phi]bool{}) {
-							s.facts[f] = true
-						}
+						ff.importPhi(s, phi, want)
 					}
 					if eq {
 						s.facts[fact{ff.canon(s, l), fNIL, ""}] = true
@@ -373,6 +387,24 @@ func (ff *FuncFacts) assume(s *factState, cond ssa.Value, b bool) {
 		s.facts[fact{cn, fTRUE, ""}] = true
 	} else {
 		s.facts[fact{cn, fFALSE, ""}] = true
+	}
+	// what was learnt may rule out further edges of merges tested earlier
+	if !ff.inRetry && len(s.pending) > 0 {
+		ff.inRetry = true
+		for round := 0; round < 3; round++ {
+			progress := false
+			for x, want := range s.pending {
+				before := len(s.facts)
+				ff.importPhi(s, x, want)
+				if _, still := s.pending[x]; !still || len(s.facts) != before {
+					progress = true
+				}
+			}
+			if !progress {
+				break
+			}
+		}
+		ff.inRetry = false
 	}
 }
 
@@ -421,6 +453,10 @@ func (ff *FuncFacts) step(s *factState, ins ssa.Instruction) {
 	case *ssa.Alloc:
 		delete(s.mem, x)
 	case *ssa.Call:
+		// a newly made error is not nil
+		if freshNonNil(x) {
+			s.facts[fact{ff.canon(s, x), fNONNIL, ""}] = true
+		}
 		// constructors of package streams never return nil
 		if f := x.Call.StaticCallee(); f != nil && f.Pkg != nil && f.Pkg.Pkg.Path() == modPath+"/streams" && strings.HasPrefix(f.Name(), "New") && !strings.HasSuffix(f.Name(), "Resolver") {
 			s.facts[fact{ff.canon(s, x), fNONNIL, ""}] = true
@@ -587,53 +623,9 @@ func computeFactsUncached(fn *ssa.Function) *FuncFacts {
 				ff.step(s, ins)
 			}
 			for si, succ := range b.Succs {
-				out := s.clone()
-				if ifi, ok := b.Instrs[len(b.Instrs)-1].(*ssa.If); ok {
-					ff.assume(out, ifi.Cond, si == 0)
-					if contradictory(out) {
-						continue // the edge contradicts what is known on every path reaching it: infeasible
-					}
-				}
-				// phi transfer: facts of the incoming value become facts of the phi
-				pi := -1
-				for i, p := range succ.Preds {
-					if p == b {
-						pi = i
-					}
-				}
-				for _, ins := range succ.Instrs {
-					phi, ok := ins.(*ssa.Phi)
-					if !ok {
-						break
-					}
-					pn := ff.canon(out, phi)
-					for f := range out.facts {
-						if f.v == pn {
-							delete(out.facts, f)
-						}
-					}
-					if pi >= 0 {
-						en := ff.canon(out, phi.Edges[pi])
-						if en == "nil" {
-							out.facts[fact{pn, fNIL, ""}] = true
-						} else if c, ok := phi.Edges[pi].(*ssa.Const); ok && c.Value != nil {
-							if c.Value.Kind() == constant.Bool {
-								if constant.BoolVal(c.Value) {
-									out.facts[fact{pn, fTRUE, ""}] = true
-								} else {
-									out.facts[fact{pn, fFALSE, ""}] = true
-								}
-							} else {
-								out.facts[fact{pn, fEQ, "const:" + constString(c)}] = true
-							}
-						} else {
-							for f := range out.facts {
-								if f.v == en {
-									out.facts[fact{pn, f.k, f.c}] = true
-								}
-							}
-						}
-					}
+				out, feasible := ff.transferEdge(b, si, s)
+				if !feasible {
+					continue // the edge contradicts what is known on every path reaching it: infeasible
 				}
 				if old, ok := ff.in[succ]; ok {
 					m := meetFacts(old, out)
@@ -834,6 +826,9 @@ func (ff *FuncFacts) blockEdgesHold(b *ssa.BasicBlock, pred factPred, depth int,
 		if pred(es) {
 			continue
 		}
+		if ff.phiSplitHolds(b.Preds[i], b, pred) {
+			continue
+		}
 		if !ff.blockEdgesHold(b.Preds[i], pred, depth-1, seen) {
 			return false
 		}
@@ -843,10 +838,22 @@ func (ff *FuncFacts) blockEdgesHold(b *ssa.BasicBlock, pred factPred, depth int,
 
 // errStatus classifies result idx of a return as possibly nil / possibly non-nil.
 func (ff *FuncFacts) errStatus(r *ssa.Return, idx int) (mayNil, mayNonNil bool) {
+	return ff.errStatusIn(ff.at[r], r.Results[idx])
+}
+
+// errStatusIn: can value v (an error) be nil / non-nil in state s?
+func (ff *FuncFacts) errStatusIn(s *factState, v0 ssa.Value) (mayNil, mayNonNil bool) {
 	var visit func(v ssa.Value, depth int)
-	s := ff.at[r]
 	visit = func(v ssa.Value, depth int) {
-		v = ff.resolve(r, v)
+		if s != nil {
+			for i := 0; i < 8; i++ {
+				if a, ok := s.alias[v]; ok {
+					v = a
+				} else {
+					break
+				}
+			}
+		}
 		if isNilConst(v) {
 			mayNil = true
 			return
@@ -884,7 +891,7 @@ func (ff *FuncFacts) errStatus(r *ssa.Return, idx int) (mayNil, mayNonNil bool) 
 		}
 		mayNil, mayNonNil = true, true
 	}
-	visit(r.Results[idx], 0)
+	visit(v0, 0)
 	return
 }
 
@@ -947,12 +954,13 @@ func contradictory(s *factState) bool {
 // fact that the incoming value has that kind). An edge is excluded when its
 // value is a constant of the other kind or is known, on that edge, to have the
 // other kind. Nil result: nothing is known (or no edge can supply it).
-func (ff *FuncFacts) phiImplies(x *ssa.Phi, want factKind, seen map[*ssa.Phi]bool) map[fact]bool {
+func (ff *FuncFacts) phiImplies(x *ssa.Phi, want factKind, seen map[*ssa.Phi]bool, cur *factState) (map[fact]bool, []int) {
 	seen[x] = true
 	es := ff.phiImpl[x.Block()]
 	if len(es) != len(x.Edges) {
-		return nil
+		return nil, nil
 	}
+	var included []int
 	opposite := map[factKind]factKind{fTRUE: fFALSE, fFALSE: fTRUE, fNIL: fNONNIL, fNONNIL: fNIL}[want]
 	var common map[fact]bool
 	meet := func(m map[fact]bool) {
@@ -974,6 +982,19 @@ func (ff *FuncFacts) phiImplies(x *ssa.Phi, want factKind, seen map[*ssa.Phi]boo
 		if st == nil {
 			continue // edge from an unreachable block
 		}
+		// an edge whose facts contradict what is known now was not the one taken
+		if cur != nil && !ff.curLoopDiffers(x, cur) {
+			u := newFactState()
+			for f := range st.facts {
+				u.facts[f] = true
+			}
+			for f := range cur.facts {
+				u.facts[f] = true
+			}
+			if contradictory(u) {
+				continue
+			}
+		}
 		if c, isC := e.(*ssa.Const); isC {
 			isOpp := false
 			if c.IsNil() {
@@ -989,6 +1010,7 @@ func (ff *FuncFacts) phiImplies(x *ssa.Phi, want factKind, seen map[*ssa.Phi]boo
 				continue
 			}
 			meet(st.facts)
+			included = append(included, i)
 			continue
 		}
 		en := ff.canon(st, e)
@@ -998,19 +1020,48 @@ func (ff *FuncFacts) phiImplies(x *ssa.Phi, want factKind, seen map[*ssa.Phi]boo
 		if freshNonNil(e) && want == fNIL {
 			continue
 		}
-		u := map[fact]bool{}
-		for f := range st.facts {
-			u[f] = true
+		// the edge taken with the tested outcome: what that says about the incoming value
+		us := st.clone()
+		if _, isPhi := e.(*ssa.Phi); !isPhi && ff.implDepth < 3 {
+			switch want {
+			case fTRUE, fFALSE:
+				wasRetry := ff.inRetry
+				ff.inRetry = true
+				ff.implDepth++
+				ff.assume(us, e, want == fTRUE)
+				ff.implDepth--
+				ff.inRetry = wasRetry
+			}
 		}
-		u[fact{en, want, ""}] = true
+		us.facts[fact{en, want, ""}] = true
+		if cur != nil && !ff.curLoopDiffers(x, cur) {
+			both := us.clone()
+			for f := range cur.facts {
+				both.facts[f] = true
+			}
+			if contradictory(both) {
+				continue
+			}
+		}
+		u := us.facts
+		// streams.ToType returns a value whenever it returns a nil error
+		if ex, ok := e.(*ssa.Extract); ok && ex.Index == 1 && want == fNIL {
+			if c, ok := ex.Tuple.(*ssa.Call); ok && staticName(c) == "streams.ToType" {
+				if v := extractOf(c, 0); v != nil {
+					u[fact{ff.canon(st, v), fNONNIL, ""}] = true
+				}
+			}
+		}
 		if ph, ok := e.(*ssa.Phi); ok && !seen[ph] {
-			for f := range ff.phiImplies(ph, want, seen) {
+			sub, _ := ff.phiImplies(ph, want, seen, cur)
+			for f := range sub {
 				u[f] = true
 			}
 		}
 		meet(u)
+		included = append(included, i)
 	}
-	return common
+	return common, included
 }
 
 // freshNonNil: the value is a newly made error (fmt.Errorf / errors.New).
@@ -1021,4 +1072,335 @@ func freshNonNil(v ssa.Value) bool {
 	}
 	n := staticName(c)
 	return n == "fmt.Errorf" || n == "errors.New"
+}
+
+// resolveAt: the value v denotes at instruction ins, looking through merges
+// (phis) all of whose incoming edges but one are excluded by what is known at
+// ins. An edge is excluded when the facts it carried in the first pass
+// contradict the facts holding before ins (SSA values are immutable along a
+// path, so a value known nil on the edge and non-nil at ins rules the edge
+// out). This is how `x, err := f(); if err != nil { return }; use(x)` is read
+// after f has been expanded in place: x is a merge of the results of f's
+// exits, and at the use only the exit with a nil error remains.
+func (ff *FuncFacts) resolveAt(ins ssa.Instruction, v ssa.Value) ssa.Value {
+	s := ff.at[ins]
+	if s == nil || ff.phiImpl == nil {
+		return v
+	}
+	for depth := 0; depth < 6; depth++ {
+		if a, ok := s.alias[v]; ok {
+			v = a
+			continue
+		}
+		phi, ok := v.(*ssa.Phi)
+		if !ok {
+			return v
+		}
+		if loopHeader(loopBlocks(phi.Block())) != loopHeader(loopBlocks(ins.Block())) {
+			return v
+		}
+		es := ff.phiImpl[phi.Block()]
+		if len(es) != len(phi.Edges) {
+			return v
+		}
+		var only ssa.Value
+		n := 0
+		for i, e := range phi.Edges {
+			if es[i] == nil {
+				continue
+			}
+			u := newFactState()
+			for f := range es[i].facts {
+				u.facts[f] = true
+			}
+			for f := range s.facts {
+				u.facts[f] = true
+			}
+			if contradictory(u) {
+				continue
+			}
+			n++
+			only = e
+		}
+		if n != 1 {
+			return v
+		}
+		v = only
+	}
+	return v
+}
+
+// curLoopDiffers guards the use of current facts to exclude phi edges: facts
+// about values computed inside a loop describe the latest iteration only, so
+// the exclusion is applied only to merges outside loops.
+func (ff *FuncFacts) curLoopDiffers(x *ssa.Phi, cur *factState) bool {
+	return loopHeader(loopBlocks(x.Block())) != nil
+}
+
+// transferEdge: the state carried by edge number si out of block b, given the
+// state s at the end of b: branch assumption, infeasibility pruning, phi
+// transfer.
+func (ff *FuncFacts) transferEdge(b *ssa.BasicBlock, si int, s *factState) (*factState, bool) {
+	succ := b.Succs[si]
+	out := s.clone()
+	if ifi, ok := b.Instrs[len(b.Instrs)-1].(*ssa.If); ok {
+		ff.assume(out, ifi.Cond, si == 0)
+		if contradictory(out) {
+			return nil, false
+		}
+	}
+	// phi transfer: facts of the incoming value become facts of the phi
+	pi := -1
+	for i, p := range succ.Preds {
+		if p == b {
+			pi = i
+		}
+	}
+	for _, ins := range succ.Instrs {
+		phi, ok := ins.(*ssa.Phi)
+		if !ok {
+			break
+		}
+		delete(out.alias, phi)
+		delete(out.pending, phi)
+		pn := ff.canon(out, phi)
+		for f := range out.facts {
+			if f.v == pn {
+				delete(out.facts, f)
+			}
+		}
+		if pi >= 0 {
+			en := ff.canon(out, phi.Edges[pi])
+			if en == "nil" {
+				out.facts[fact{pn, fNIL, ""}] = true
+			} else if c, ok := phi.Edges[pi].(*ssa.Const); ok && c.Value != nil {
+				if c.Value.Kind() == constant.Bool {
+					if constant.BoolVal(c.Value) {
+						out.facts[fact{pn, fTRUE, ""}] = true
+					} else {
+						out.facts[fact{pn, fFALSE, ""}] = true
+					}
+				} else {
+					out.facts[fact{pn, fEQ, "const:" + constString(c)}] = true
+				}
+			} else {
+				for f := range out.facts {
+					if f.v == en {
+						out.facts[fact{pn, f.k, f.c}] = true
+					}
+				}
+			}
+		}
+	}
+	return out, true
+}
+
+// returnsFromEdge: the returns reachable by entering `into` through the edge
+// from `from` only, with the must-facts of that sub-flow (infeasible branches
+// pruned), never passing through a block of `stop`. A second result lists the
+// stop blocks reached.
+func (ff *FuncFacts) returnsFromEdge(from, into *ssa.BasicBlock, stop map[*ssa.BasicBlock]bool) (map[*ssa.Return]*factState, []*ssa.BasicBlock) {
+	rets := map[*ssa.Return]*factState{}
+	var stopped []*ssa.BasicBlock
+	endOf := func(b *ssa.BasicBlock) *factState {
+		st, ok := ff.in[b]
+		if !ok {
+			return nil
+		}
+		s := st.clone()
+		for _, ins := range b.Instrs {
+			ff.step(s, ins)
+		}
+		return s
+	}
+	s0 := endOf(from)
+	if s0 == nil {
+		return rets, nil
+	}
+	si := -1
+	for i, sc := range from.Succs {
+		if sc == into {
+			si = i
+		}
+	}
+	first, ok := ff.transferEdge(from, si, s0)
+	if !ok {
+		return rets, nil
+	}
+	in2 := map[*ssa.BasicBlock]*factState{into: first}
+	work := []*ssa.BasicBlock{into}
+	for n := 0; len(work) > 0 && n < 20000; n++ {
+		b := work[0]
+		work = work[1:]
+		if stop[b] {
+			stopped = append(stopped, b)
+			continue
+		}
+		s := in2[b].clone()
+		for _, ins := range b.Instrs {
+			if r, ok := ins.(*ssa.Return); ok {
+				rets[r] = s.clone()
+			}
+			ff.step(s, ins)
+		}
+		for i, succ := range b.Succs {
+			out, ok := ff.transferEdge(b, i, s)
+			if !ok {
+				continue
+			}
+			if old, ok := in2[succ]; ok {
+				m := meetFacts(old, out)
+				if !m.equal(old) {
+					in2[succ] = m
+					work = append(work, succ)
+				}
+			} else {
+				in2[succ] = out
+				work = append(work, succ)
+			}
+		}
+	}
+	return rets, stopped
+}
+
+// importPhi adds to s what testing the merged value x for `want` implies. When
+// a single incoming edge remains possible, every merge of that block is known
+// to carry the value of that edge (recorded as an alias, so that facts about
+// the incoming values are facts about the merged ones).
+func (ff *FuncFacts) importPhi(s *factState, x *ssa.Phi, want factKind) {
+	facts, edges := ff.phiImplies(x, want, map[*ssa.Phi]bool{}, s)
+	for f := range facts {
+		s.facts[f] = true
+	}
+	if loopHeader(loopBlocks(x.Block())) != nil {
+		return
+	}
+	if len(edges) > 1 {
+		s.pending[x] = want
+		return
+	}
+	delete(s.pending, x)
+	if len(edges) != 1 {
+		return
+	}
+	for _, ins := range x.Block().Instrs {
+		y, ok := ins.(*ssa.Phi)
+		if !ok {
+			break
+		}
+		e := y.Edges[edges[0]]
+		if _, isC := e.(*ssa.Const); isC {
+			if isNilConst(e) {
+				s.facts[fact{ff.canon(s, y), fNIL, ""}] = true
+			}
+			continue
+		}
+		if e != ssa.Value(y) {
+			s.alias[y] = e
+		}
+	}
+}
+
+// phiSplitHolds: the edge from block p to block b is taken on the outcome of a
+// test of a merged value (a named boolean such as `bad := a || b`, or a merged
+// error compared with nil). pred holds on that edge if it holds, separately,
+// for every incoming edge of the merge that can produce the tested outcome —
+// each taken with the facts it carried plus what the outcome says about its
+// incoming value.
+func (ff *FuncFacts) phiSplitHolds(p, b *ssa.BasicBlock, pred factPred) bool {
+	if len(p.Instrs) == 0 || ff.phiImpl == nil {
+		return false
+	}
+	ifi, ok := p.Instrs[len(p.Instrs)-1].(*ssa.If)
+	if !ok || len(p.Succs) != 2 || p.Succs[0] == p.Succs[1] {
+		return false
+	}
+	dir := p.Succs[0] == b
+	cond := ifi.Cond
+	for {
+		if u, ok := cond.(*ssa.UnOp); ok && u.Op == token.NOT {
+			cond, dir = u.X, !dir
+			continue
+		}
+		break
+	}
+	var x *ssa.Phi
+	var want factKind
+	switch c := cond.(type) {
+	case *ssa.Phi:
+		x, want = c, fFALSE
+		if dir {
+			want = fTRUE
+		}
+	case *ssa.BinOp:
+		if c.Op != token.EQL && c.Op != token.NEQ {
+			return false
+		}
+		l, r := c.X, c.Y
+		if isNilConst(l) {
+			l, r = r, l
+		}
+		ph, isPhi := l.(*ssa.Phi)
+		if !isPhi || !isNilConst(r) {
+			return false
+		}
+		x = ph
+		if (c.Op == token.EQL) == dir {
+			want = fNIL
+		} else {
+			want = fNONNIL
+		}
+	default:
+		return false
+	}
+	es := ff.phiImpl[x.Block()]
+	if len(es) != len(x.Edges) {
+		return false
+	}
+	opposite := map[factKind]factKind{fTRUE: fFALSE, fFALSE: fTRUE, fNIL: fNONNIL, fNONNIL: fNIL}[want]
+	n := 0
+	for j, e := range x.Edges {
+		st := es[j]
+		if st == nil {
+			continue
+		}
+		if c, isC := e.(*ssa.Const); isC {
+			isOpp := false
+			if c.IsNil() {
+				isOpp = opposite == fNIL
+			} else if c.Value != nil && c.Value.Kind() == constant.Bool {
+				isOpp = constant.BoolVal(c.Value) == (opposite == fTRUE)
+			}
+			if isOpp {
+				continue
+			}
+			n++
+			if !pred(st) {
+				return false
+			}
+			continue
+		}
+		if st.facts[fact{ff.canon(st, e), opposite, ""}] || (freshNonNil(e) && want == fNIL) {
+			continue
+		}
+		u := st.clone()
+		ff.implDepth++
+		switch {
+		case want == fTRUE && ff.implDepth < 4:
+			ff.assume(u, e, true)
+		case want == fFALSE && ff.implDepth < 4:
+			ff.assume(u, e, false)
+		default:
+			u.facts[fact{ff.canon(u, e), want, ""}] = true
+		}
+		ff.implDepth--
+		if contradictory(u) {
+			continue
+		}
+		n++
+		if !pred(u) {
+			return false
+		}
+	}
+	return n > 0
 }
